@@ -311,6 +311,34 @@ def check_props(acc, desc, n, do_sensitize=True, variant=None):
     return nt
 
 
+def check_props_multi(acc, desc, pair):
+    """influence / avg_sensitivity with a LIST of nodes: one entry per node, each as for that node alone."""
+    import circuitgraph as cg
+
+    c0 = space.build(desc)
+    want = {}
+    for n in pair:
+        sp, dif, _counts, _full = ref_sensitivity(c0, n)
+        if not sp or n in sp:
+            return None
+        want[n] = {s: refsim.popcount(dif[s]) / (1 << len(sp)) for s in sp}
+    case = {"kind": "props-multi", "desc": desc, "nodes": list(pair)}
+    acc.transitions += 2
+    satref.set_policy(("first",))
+    try:
+        inf = cg.props.influence(space.build(desc), list(pair), approx=False)
+        if {k: dict(v) for k, v in inf.items()} != want:
+            acc.violation("props", "influence-list-wrong", case, f"influence({list(pair)}) = {inf}, expected {want}")
+            return True
+        av = cg.props.avg_sensitivity(space.build(desc), list(pair), approx=False)
+        wav = {n: sum(v.values()) for n, v in want.items()}
+        if set(av) != set(wav) or any(abs(av[n] - wav[n]) > 1e-12 for n in wav):
+            acc.violation("props", "avg_sensitivity-list-wrong", case, f"avg_sensitivity({list(pair)}) = {av}, expected {wav}")
+    except Exception as e:  # noqa: BLE001
+        acc.violation("props", f"influence-list-raises:{common.exc_name(e)}", case, repr(e))
+    return True
+
+
 def nonempty_subsets(xs, cap=3):
     xs = sorted(xs)
     for r in range(1, min(cap, len(xs)) + 1):
@@ -374,6 +402,11 @@ def run_props(job, acc):
                 for v in ("stale", "alias"):
                     acc.states += 1
                     check_props(acc, desc, n, variant=v)
+        if (_idx // job["of"]) % 2 == 0:
+            gates = [n for n in sorted(c.graph.nodes) if c.graph.nodes[n]["type"] not in ("0", "1", "input")]
+            for pair in itertools.permutations(gates, 2):
+                if check_props_multi(acc, desc, pair):
+                    acc.states += 1
         acc.sample({"desc": desc})
         if acc.out_of_time():
             break
@@ -434,6 +467,9 @@ def run(job):
 def replay(case, job):
     common.setup_paths()
     acc = Acc(job)
+    if case["kind"] == "props-multi":
+        check_props_multi(acc, case["desc"], tuple(case["nodes"]))
+        return acc.result()
     k = case["kind"]
     if k == "sensitization":
         check_sensitization(acc, case["desc"], case["node"], case["endpoints"], repeat=case.get("repeat", False))
